@@ -27,6 +27,7 @@ type renderCfg struct {
 	TplStatic int `json:"tplstatic"`
 	ErrLen    int `json:"errlen"`
 	ValLen    int `json:"vallen"`
+	Utf       bool `json:"utf"` // contents made of two-byte UTF-8 characters (sizes are BYTES)
 }
 
 type renderCase struct {
@@ -70,6 +71,9 @@ func renderFamily(c renderCfg, maxidx int) renderEvent {
 	rows := make([]string, len(c.Rows))
 	for i, l := range c.Rows {
 		rows[i] = strings.Repeat(string(rune('a'+i%26)), l)
+		if c.Utf && !c.Msink {
+			rows[i] = strings.Repeat(string(rune(0xe0+i%26)), l/2) + strings.Repeat("x", l%2)
+		}
 		if c.Msink {
 			// the menu is the sink: a row is the menu line "<sel>:<title>" of l bytes (l >= 3)
 			sel := string(rune('a' + i%26))
@@ -81,18 +85,24 @@ func renderFamily(c renderCfg, maxidx int) renderEvent {
 	if ts == 0 {
 		ts = c.Tpl
 	}
+	T := func(n int) string {
+		if c.Utf {
+			return strings.Repeat("\u00d8", n/2) + strings.Repeat("T", n%2)
+		}
+		return strings.Repeat("T", n)
+	}
 	val := strings.Repeat("V", c.ValLen)
 	errText := strings.Repeat("E", c.ErrLen)
-	tpl := strings.Repeat("T", ts-1) + "\n{{.data}}"
-	static := strings.Repeat("T", ts-1) + "\n"
+	tpl := T(ts-1) + "\n{{.data}}"
+	static := T(ts-1) + "\n"
 	if c.Msink {
 		// no sink symbol: the template is plain text, the renderer appends "\n{{._menu}}"
-		tpl = strings.Repeat("T", ts)
-		static = strings.Repeat("T", ts) + "\n"
+		tpl = T(ts)
+		static = T(ts) + "\n"
 	}
 	if c.ValLen > 0 {
-		tpl = strings.Repeat("T", ts-1) + "{{.val}}\n{{.data}}"
-		static = strings.Repeat("T", ts-1) + val + "\n"
+		tpl = T(ts-1) + "{{.val}}\n{{.data}}"
+		static = T(ts-1) + val + "\n"
 	}
 	if c.ErrLen > 0 {
 		static = errText + "\n" + static
@@ -202,6 +212,7 @@ func cmdRenderCases(args []string) error {
 		if err := json.Unmarshal(b, &c); err != nil {
 			return err
 		}
+		c.Cfg.Utf = n%3 == 2 // every third enumerated configuration with two-byte characters
 		ev := renderFamily(c.Cfg, c.Maxidx)
 		for _, p := range ev.Pages {
 			kinds[p.Kind]++
@@ -233,6 +244,7 @@ func cmdRenderRandom(args []string) error {
 		if rng.Intn(3) == 0 {
 			c.ValLen = 1 + rng.Intn(12)
 		}
+		c.Utf = rng.Intn(4) == 0
 		c.Tpl = c.TplStatic + c.ValLen
 		if c.ErrLen > 0 {
 			c.Tpl += c.ErrLen + 1
